@@ -100,6 +100,7 @@ func (p *c10Phys) Delete(ctx context.Context, k string) error {
 }
 
 type c10Core struct {
+	failFirst bool // the next rekey's first write (stored keys) fails
 	t      *testing.T
 	out    *vh.Out
 	p      *c10Phys
@@ -520,8 +521,26 @@ func (x *c10Core) rekey(n, t int, mode string) (int, bool) {
 	x.snapShadow()
 	ctx := vhRootCtx()
 	fail := func(res string) (int, bool) {
+		if x.failFirst {
+			// the planned failure of the rekey's FIRST write (the stored keys): the operator gives up
+			x.failFirst = false
+			fired := x.p.vhPhys.KeyFaultFired()
+			if mode == "rekeysm" {
+				_ = x.c.sealManager.CancelRotation(ctx, namespace.RootNamespaceUUID, false)
+			} else {
+				_ = x.c.RekeyCancel(false)
+			}
+			if fired && !strings.HasPrefix(res, "err:config") {
+				res = "err:io"
+			}
+			x.out.Op(res, mode+"fail", fmt.Sprint(n), fmt.Sprint(t))
+			return 0, false
+		}
 		x.out.Op(res, mode, fmt.Sprint(n), fmt.Sprint(t))
 		return 0, false
+	}
+	if x.failFirst {
+		x.p.vhPhys.FailKeyOnce("put", "core/hsm/barrier-unseal-keys", "")
 	}
 	conf := &SealConfig{Type: x.c.seal.BarrierType().String(), SecretShares: n, SecretThreshold: t, VerificationRequired: mode == "rekeyv"}
 	bc, _ := x.c.seal.BarrierConfig(context.Background())
@@ -983,6 +1002,19 @@ func TestVerifC10Core(t *testing.T) {
 				mode := []string{"rekey", "rekeysm", "rekeyv"}[r.Intn(3)]
 				if j == 0 && i < 3 {
 					mode = []string{"rekey", "rekeysm", "rekeyv"}[i]
+				}
+				if mode != "rekeyv" && r.Chance(25) {
+					// a rekey that fails at its first write and is abandoned; the share-less root rotation that follows
+					// writes the stored keys through the seal's wrapper — which must still hold the key the shares give
+					x.failFirst = true
+					if _, ok := x.rekey(cfg[0], cfg[1], mode); ok {
+						t.Fatalf("rekey with a failing first write succeeded")
+					}
+					x.failFirst = false
+					x.rotroot()
+					x.sealOp()
+					x.unsealOp("new")
+					x.dump()
 				}
 				n, ok := x.rekey(cfg[0], cfg[1], mode)
 				if ok {
